@@ -27,7 +27,7 @@ CONSTANTS Threads, Progs,        \* Progs: set of candidate program assignments 
           Shared, SetOnAllPaths, ClearOnError, CopyOnConstruct
 
 \* ---- the document pool ----
-DocIds == {"plain", "colA", "colB", "multi", "fig", "fail", "share2", "share3", "paged", "pagedfn"}
+DocIds == {"plain", "colA", "colB", "multi", "fig", "fail", "share2", "share3", "paged", "pagedfn", "pagedhdr"}
 Pal(dd) == CASE dd = "colA" -> {26, 552} [] dd = "colB" -> {100, 300, 652} [] dd = "multi" -> {26, 100}
             [] dd = "fig" -> {552} [] dd = "fail" -> {300} [] dd = "paged" -> {26, 552} [] OTHER -> {}
 Uses(dd) == CASE dd = "colA" -> <<552, 26, 552>> [] dd = "colB" -> <<652, 100, 300>> [] dd = "multi" -> <<100, 26>>
